@@ -1293,9 +1293,6 @@ fn verif_witness_search_gen_optimizer() {
       };
       let (_, wasm) = back_end(&mut f, Some(&configuration));
       let got = run_wasm(&node, &w, &f, &wasm);
-      if got.1.as_ref().is_some_and(|m| m.contains("CompileError")) && !configuration.does_perform_inlining {
-        continue; // the WebAssembly lowering can need inlining to have run (a back-end matter)
-      }
       n += 1;
       if let Some(d) = difference(&format!("optimized with [lvn={} cse={} loop={} inline={} scalar={}] the program does not print what the evaluation rules prescribe", bits & 1 != 0, bits & 2 != 0, bits & 4 != 0, bits & 8 != 0, bits & 16 != 0), &text, &got, &expected) {
         println!("WITNESS: {d}");
